@@ -15,6 +15,7 @@ import (
 
 	"github.com/dgraph-io/badger/v4/pb"
 	"github.com/dgraph-io/badger/v4/table"
+	"github.com/dgraph-io/badger/v4/vhook"
 	"github.com/dgraph-io/badger/v4/y"
 	"github.com/dgraph-io/ristretto/v2/z"
 )
@@ -154,6 +155,13 @@ func (sw *StreamWriter) Write(buf *z.Buffer) error {
 			panic(fmt.Sprintf("write performed on closed stream: %d", kv.StreamId))
 		}
 
+		vhook.WaitLock("sw.writeLock", func() bool {
+			if sw.writeLock.TryLock() {
+				sw.writeLock.Unlock()
+				return true
+			}
+			return false
+		})
 		sw.writeLock.Lock()
 		if sw.maxVersion < kv.Version {
 			sw.maxVersion = kv.Version
@@ -199,6 +207,13 @@ func (sw *StreamWriter) Write(buf *z.Buffer) error {
 		all = append(all, req)
 	}
 
+	vhook.WaitLock("sw.writeLock", func() bool {
+		if sw.writeLock.TryLock() {
+			sw.writeLock.Unlock()
+			return true
+		}
+		return false
+	})
 	sw.writeLock.Lock()
 	defer sw.writeLock.Unlock()
 
@@ -250,6 +265,13 @@ func (sw *StreamWriter) Write(buf *z.Buffer) error {
 // Flush is called once we are done writing all the entries. It syncs DB directories. It also
 // updates Oracle with maxVersion found in all entries (if DB is not managed).
 func (sw *StreamWriter) Flush() error {
+	vhook.WaitLock("sw.writeLock", func() bool {
+		if sw.writeLock.TryLock() {
+			sw.writeLock.Unlock()
+			return true
+		}
+		return false
+	})
 	sw.writeLock.Lock()
 	defer sw.writeLock.Unlock()
 
@@ -400,6 +422,17 @@ func (w *sortedWriter) handleRequests() {
 	}
 
 	for {
+		vhook.PointID("sw.recv", uint64(w.streamID)+1)
+		if vhook.On {
+			// Under simulation a pending request deterministically wins over a
+			// closed closer (the runtime would pick one of the two at random).
+			select {
+			case req := <-w.reqCh:
+				process(req)
+				continue
+			default:
+			}
+		}
 		select {
 		case req := <-w.reqCh:
 			process(req)
@@ -444,6 +477,7 @@ func (w *sortedWriter) send(done bool) error {
 		return err
 	}
 	go func(builder *table.Builder) {
+		vhook.PointID("sw.createTable", uint64(w.streamID)+1)
 		err := w.createTable(builder)
 		w.throttle.Done(err)
 	}(w.builder)
